@@ -52,7 +52,8 @@ func VsymC30_Readers() {
 	vsym_Assert(err == nil, "C30/alg-normalises")
 	trueSHA, _ := ComputeChecksum(ChecksumSHA256, p0)
 	trueAlg, _ := ComputeChecksum(alg, p0)
-	env := Envelope{Version: 1, Bucket: "b", Key: "k", Size: 2, ChecksumAlg: algRaw}
+	// the declared size is just another envelope field: it may be wrong independently of the digests
+	env := Envelope{Version: 1, Bucket: "b", Key: "k", Size: int64(vsym_Choose("declared-size", 4)), ChecksumAlg: algRaw}
 	switch vsym_Choose("sha256-field", 2) {
 	case 0:
 		env.SHA256 = trueSHA
